@@ -5,6 +5,8 @@ CRATES = {
     "vh": dict(workspace="harness", package="vh", bin="vh", features=[], thorough_features=["extra_zoo"]),
     "vabi": dict(workspace="harness", package="vabi", bin="va", features=[], thorough_features=["extra_zoo"]),
     "vconc": dict(workspace="harness", package="vconc", bin="vc", features=[]),
+    # cdylib loaded by the host through AbiConnection::load_shared_library (C11, C16)
+    "vplugin": dict(workspace="plugin", package="vplugin", bin="libvplugin.so", features=[]),
 }
 
 BUILDS = {
@@ -13,6 +15,15 @@ BUILDS = {
     # stable dev profile: overflow checks and debug_assert on
     "debug": dict(target_dir="q", args=[], bin_subdir="debug"),
 }
+
+# plugin flavours: a different compiler (nightly) and randomised struct layouts
+for _seed in range(1, 9):
+    BUILDS["plug%d" % _seed] = dict(target_dir="plug%d" % _seed, toolchain=["+nightly"], args=["--release"], bin_subdir="release",
+                                    env={"RUSTFLAGS": "-Zrandomize-layout -Zlayout-seed=%d" % _seed})
+# also randomises the layout of std types (Vec / String field order): exercises the VecOrStringLayout probes
+BUILDS["plugstd"] = dict(target_dir="plugstd", toolchain=["+nightly"], args=["--release", "-Zbuild-std", "--target", "x86_64-unknown-linux-gnu"],
+                         bin_subdir="x86_64-unknown-linux-gnu/release", env={"RUSTFLAGS": "-Zrandomize-layout -Zlayout-seed=11"})
+BUILDS["plug198"] = dict(target_dir="plug198", toolchain=["+1.98.1"], args=["--release"], bin_subdir="release", env={})
 
 COMMON_ASSUMPTIONS = [
     "the reference model (harness/vcore/src/model.rs) is a correct reading of the documented savefile wire format",
@@ -174,6 +185,22 @@ PROPS = {
         runs=dict(quick=[dict(build="release", crate="vconc", shards=6)], thorough=[dict(build="release", crate="vconc", shards=16)]),
         required_counters=dict(quick=dict(trials=100, hook_events=20000, template_cache_misses=100, tickets_drawn=10000)),
     ),
+    "C11": dict(
+        level="exploration",
+        rule="(a) observation: cdylib plugins compiled by a DIFFERENT compiler (nightly 1.97 vs stable 1.95 host; thorough also 1.98.1 and -Zbuild-std) with "
+             "-Zrandomize-layout and several layout seeds are loaded with AbiConnection::load_shared_library; 21 methods with by-reference / slice / &str / Vec / "
+             "by-value arguments of repr(Rust) structs (mixed field sizes, nested, containing String/Vec), a repr(u8) data enum, a packed repr(C) struct and tuples are "
+             "called with generated values; the plugin returns its Debug rendering of what it observed, compared with the host's; for every argument "
+             "get_arg_passable_by_ref is compared with layout facts (size, alignment, every field offset, Vec word order) exported by both sides. "
+             "(b) decision: random fully-known layout descriptions and EVERY single-fact change of them (size, alignment, each offset, field/variant count, discriminant "
+             "width/value, explicit repr, Vec/String layout, array length, each fact replaced by unknown) must be reported incompatible in both directions by "
+             "Schema::layout_compatible. distinct_nontrivial = distinct (plugin, method, argument, by-ref decision, layouts differ) + distinct base descriptions.",
+        runs=dict(quick=[dict(build="release", crate="vabi", shards=2, plugins=["plug1", "plug2"])],
+                  thorough=[dict(build="release", crate="vabi", shards=8, plugins=["plug1", "plug2", "plug3", "plug4", "plug5", "plug6", "plugstd", "plug198"]),
+                            dict(build="debug", crate="vabi", shards=2, plugins=["plug1", "plug7"])]),
+        required_counters=dict(quick=dict(plugins_loaded=2, observed_equal=1000, single_fact_changes=5000, types_with_different_layout_in_plugin=2, arguments_passed_by_reference=4, arguments_serialized=4)),
+        subject_filter=False,
+    ),
     "C12": dict(
         level="exploration",
         rule=RULE_TYPES + "For every subject and every version 0..=current: get_schema::<T>(v) is interpreted by an independent schema-driven reader over the bytes "
@@ -218,10 +245,26 @@ PROPS = {
 }
 
 
+def build_cmd(flavor, crate, tier):
+    """cargo command line for one build flavour. All harness crates are built together so that
+    feature unification (and therefore every shared artefact) is identical for every check."""
+    spec = BUILDS[flavor]
+    cmd = ["cargo"] + spec.get("toolchain", []) + ["build", "--offline"]
+    ws = CRATES[crate]["workspace"]
+    if ws == "harness" and not spec.get("single_package"):
+        cmd += ["-p", "vh", "-p", "vabi", "-p", "vconc"]
+        if tier == "thorough":
+            cmd += ["--features", "vh/extra_zoo,vabi/extra_zoo"]
+    else:
+        cmd += ["-p", CRATES[crate]["package"]]
+    return cmd + spec.get("args", [])
+
+
 def prepare_fresh_zoo(verif, seed, log):
     """Thorough tier: generate an additional zoo from VERIF_SEED into vcore/src/zoo_extra.rs."""
     out = os.path.join(verif, "harness", "vcore", "src", "zoo_extra.rs")
-    cmd = ["python3", os.path.join(verif, "gen", "zoo.py"), "--seed", str(1000 + seed), "--types", "120", "--families", "40", "--out", out, "--module", "zoo_extra"]
+    cmd = ["python3", os.path.join(verif, "gen", "zoo.py"), "--seed", str(1000 + seed), "--types", "120", "--families", "40", "--out", out, "--module", "zoo_extra",
+           "--abi-out", os.path.join(verif, "harness", "vabi", "src", "fam_gen_extra.rs")]
     p = subprocess.run(cmd, stdout=subprocess.PIPE, stderr=subprocess.STDOUT, text=True)
     if p.returncode != 0:
         return False, p.stdout[-2000:]
